@@ -1,9 +1,11 @@
 (* C05 - Decode memory is proportional to bytes actually received, not declared lengths.
-   Statements only.  What the model can carry: a value or a nested region is only ever as large as
-   the bytes that are really there, whatever length the item declares. *)
+   Statements only.  Readers.v is the decoder on models of the reader objects it uses (bufio,
+   LimitedReader, ReadFull, CopyN into a growing bytes.Buffer) and charges an allocation ledger for
+   every make / new / append / boxing / error value the Go code performs (constants K_* are upper
+   bounds; the ledger is compared with runtime.MemStats.TotalAlloc on every run). *)
 From Coq Require Import String.
-From Coq Require Import List NArith ZArith Lia.
-Require Import Bytes Schema Codec CodecProofs.
+From Coq Require Import List NArith ZArith Lia Bool Strings.Byte.
+Require Import Bytes Schema Codec CodecProofs Readers ReadersProofs LedgerProofs Instance.
 Import ListNotations.
 Open Scope N_scope.
 
@@ -21,3 +23,69 @@ Print Assumptions C05_value_within_input.
 Theorem C05_region_within_input : forall len l, blen (takeN len l) <= blen l /\ blen (takeN len l) <= len.
 Proof. intros len l. unfold takeN, blen. rewrite firstn_length. lia. Qed.
 Print Assumptions C05_region_within_input.
+
+(* the buffer io.CopyN grows for a string / byte string: at most 4 x the bytes that really arrived + 2 KiB,
+   whatever the declared length l - for every script of the transport, success or failure *)
+Theorem C05_string_buffer_follows_data : forall l r x r' al, wf_reader r -> copy_buf l r = (x, r', al) ->
+  al + 4 * blen (rden r') <= 4 * blen (rden r) + 2048.
+Proof. exact copy_buf_cost. Qed.
+Print Assumptions C05_string_buffer_follows_data.
+
+(* THE BOUND.  One Decode call, on a decoder in any well-formed state, for every schema whose structures have at most
+   30 fields, every input, every script of the transport, whether it succeeds or fails: the ledger grows by at most
+   A = 1536 bytes per byte the reader can still deliver (+3 for a tag already looked at) plus EB = 8 KiB.
+   Lengths declared inside the input do not occur in the bound. *)
+Theorem C05_alloc_linear : forall ty tag fl s x s',
+  (flist_len fl <=? NMAX) && small_fl fl = true -> wf_c s -> c_dec_top ty tag fl s = (x, s') ->
+  (Z.of_N (alloc s') <= Z.of_N (alloc s) + A * phi s + EB)%Z.
+Proof. exact decode_alloc_linear. Qed.
+Print Assumptions C05_alloc_linear.
+
+(* from a fresh Decoder on a transport that will deliver [data] (by any script, ending in EOF or in an I/O error) *)
+Theorem C05_decode_bound : forall ty tag fl data sizes weof term scanner x s',
+  (flist_len fl <=? NMAX) && small_fl fl = true -> stall_free sizes ->
+  c_dec_top ty tag fl (new_decoder scanner {| b_data := data; b_sizes := sizes; b_weof := weof; b_term := term |}) = (x, s') ->
+  (Z.of_N (alloc s') <= 1536 * Z.of_N (blen data) + 8192 + 4288)%Z.
+Proof.
+  intros ty tag fl data sizes weof term scanner x s' Hsm Hsf H.
+  set (b := {| b_data := data; b_sizes := sizes; b_weof := weof; b_term := term |}) in *.
+  destruct (new_decoder_wf scanner b Hsf) as [Hw Hfl].
+  pose proof (decode_alloc_linear _ _ _ _ _ _ Hsm Hw H) as R.
+  assert (Hphi: phi (new_decoder scanner b) = Z.of_N (blen data)).
+  { unfold phi, look. apply (f_equal rest) in Hfl. unfold flat in Hfl. cbn [rest] in Hfl. rewrite Hfl.
+    destruct scanner; cbn; lia. }
+  assert (Ha: (Z.of_N (alloc (new_decoder scanner b)) <= 4288)%Z) by (destruct scanner; cbn; lia).
+  rewrite Hphi in R. unfold A, EB in R. lia.
+Qed.
+Print Assumptions C05_decode_bound.
+
+(* INSTANCE: every structure type of the schema regenerated from /repo has at most 30 fields, at every nesting level *)
+Definition inst_small_b : bool :=
+  forallb (fun e => (flist_len (snd (snd e)) <=? NMAX) && small_fl (snd (snd e))) the_type_table.
+Theorem C05_instance_small : inst_small_b = true.
+Proof. vm_compute. reflexivity. Qed.
+Print Assumptions C05_instance_small.
+
+Theorem C05_instance : forall ty tag fl, inst_T ty = Some (tag, fl) -> (flist_len fl <=? NMAX) && small_fl fl = true.
+Proof.
+  intros ty tag fl H. unfold inst_T in H. pose proof C05_instance_small as S. unfold inst_small_b in S.
+  rewrite forallb_forall in S.
+  assert (Hin: In (ty, (tag, fl)) the_type_table).
+  { revert H. generalize the_type_table. induction l as [|[k v] r IH]; cbn [tassoc]; [discriminate|].
+    destruct (String.eqb_spec ty k) as [->|Hne].
+    - intros E. injection E as ->. left. reflexivity.
+    - intros E. right. apply IH. exact E. }
+  exact (S _ Hin).
+Qed.
+Print Assumptions C05_instance.
+
+(* the hypothesis has instances and the bound bites: a 16-byte Request header that declares a 4 GiB structure *)
+Example C05_example_planted_length :
+  let data := [x42;x00;x78;x01;xff;xff;xff;xf8; x42;x00;x77;x01;xff;xff;xff;xf0] in
+  match inst_T "Request" with
+  | Some (tag, fl) =>
+      let '(x, s') := c_dec_top "Request" tag fl (new_decoder false {| b_data := data; b_sizes := [1;0;2;5]; b_weof := true; b_term := EOF |}) in
+      x = Err /\ alloc s' < 32768
+  | None => False
+  end.
+Proof. vm_compute. split; reflexivity. Qed.
